@@ -38,7 +38,7 @@ typedef struct { size_t ilen, xlen; octet tag[32]; size_t tlen; } get_t;
 static int runScript(int b, size_t klen, const char* script, int reloc_all)
 {
 	octet* key = rnd(klen); octet iv[16];
-	size_t cap = 4096, inl = 0, hl = 0, ng = 0, vbad = 0, keep = keepOf(b);
+	size_t cap = 4096, inl = 0, hl = 0, ng = 0, vbad = 0, keep = keepOf(b), authl = 0; int decoupled = 0;
 	octet* in = (octet*)malloc(cap); octet* out = (octet*)malloc(cap); octet* hdr = (octet*)malloc(cap);
 	get_t gets[64]; void* st = malloc(keep);
 	memset(st, 0xC3, keep);
@@ -76,6 +76,29 @@ static int runScript(int b, size_t klen, const char* script, int reloc_all)
 			if (b == B_DWPE || b == B_DWPD) beltDWPStepI(frag, n, st); else beltCHEStepI(frag, n, st);
 			hl += n; free(frag);
 		}
+		else if ((c == 'E' || c == 'A') && b >= B_DWPE && b <= B_CHED)
+		{	/* decoupled cipher / authentication halves (spec/sm/StepAead.tla): E = StepE (StepD for the D bundles),
+			   A = StepA over ciphertext octets; protect: A reads ciphertext already produced, unprotect: D needs authenticated octets */
+			int prot = (b == B_DWPE || b == B_CHEE), dwp = (b == B_DWPE || b == B_DWPD);
+			octet* frag = (octet*)malloc(n ? n : 1);
+			decoupled = 1;
+			if (c == 'E')
+			{
+				if (inl + n > cap || (!prot && inl + n > authl)) return 2;
+				if (prot) { vxRandBuf(frag, n); memcpy(in + inl, frag, n); } else memcpy(frag, in + inl, n);
+				if (prot) { if (dwp) beltDWPStepE(frag, n, st); else beltCHEStepE(frag, n, st); }
+				else { if (dwp) beltDWPStepD(frag, n, st); else beltCHEStepD(frag, n, st); }
+				memcpy(out + inl, frag, n); inl += n;
+			}
+			else
+			{
+				if (authl + n > cap || (prot && authl + n > inl)) return 2;
+				if (prot) memcpy(frag, out + authl, n); else { vxRandBuf(frag, n); memcpy(in + authl, frag, n); }
+				if (dwp) beltDWPStepA(frag, n, st); else beltCHEStepA(frag, n, st);
+				authl += n;
+			}
+			free(frag);
+		}
 		else if (c == 'S')
 		{
 			octet* frag = (octet*)malloc(n ? n : 1);
@@ -106,7 +129,7 @@ static int runScript(int b, size_t klen, const char* script, int reloc_all)
 		{
 			get_t* g = &gets[ng]; octet bad[32]; bool_t v1 = TRUE, v2 = FALSE;
 			if (ng >= 64) return 2;
-			g->ilen = hl; g->xlen = inl; g->tlen = 0;
+			g->ilen = hl; g->xlen = decoupled ? authl : inl; g->tlen = 0;
 			switch (b)
 			{
 			case B_MAC: beltMACStepG(g->tag, st); g->tlen = 8; break;
